@@ -133,10 +133,14 @@ class Stepped:
 
     WAIT = 1.5          # seconds a released thread gets to reach its next stop point before it counts as blocked
 
-    def __init__(self, name, stops):
+    def __init__(self, name, stops, every_line_in=None):
+        """stops: {(code, line): label}.  every_line_in: iterable of file-name suffixes -- stop before *every* line executed in those
+        source files (label "L"), for preemption-point exploration when the interesting lines are not known in advance."""
         self.name = name
         self.stops = stops
         self.codes = {c for (c, _) in stops}
+        self.files = tuple(every_line_in or ())
+        self.nstops = 0
         self.cv = threading.Condition()
         self.job = None
         self.state = "idle"            # idle | running | at:<label> | dead
@@ -150,13 +154,16 @@ class Stepped:
 
     # ---- worker side
     def _tracer(self, frame, event, arg):
-        if frame.f_code in self.codes:
+        if frame.f_code in self.codes or (self.files and frame.f_code.co_filename.endswith(self.files)):
             return self._local
         return None
 
     def _local(self, frame, event, arg):
         if event == "line" and not self.free:
             label = self.stops.get((frame.f_code, frame.f_lineno))
+            if label is None and self.files and frame.f_code.co_filename.endswith(self.files):
+                label = "L"
+                self._last = None
             if label is not None and self._last == (id(frame), label):
                 label = None               # a statement spanning several lines comes back to its first line for the call itself
             if label is not None:
@@ -164,6 +171,7 @@ class Stepped:
                 with self.cv:
                     if self.state == "blocked":       # got the lock after all: the controller has given up on the schedule by now
                         self.state = "running"
+                    self.nstops += 1
                     self.state = "at:" + label
                     self.cv.notify_all()
                     while self.permit == 0 and not self.free:
